@@ -148,7 +148,7 @@ def rebuild_args(spec):
 def san_corpus(ctx, asan_dir, attempt=1):
     K = 16
     stale = False
-    out = os.path.join(core.VERIF, 'build', 'run', 'c17_' + ctx.tier + core.TAG)
+    out = os.path.join(core.VERIF, 'build', 'run', 'c17_' + ctx.tier + core.TAG + '_' + core.RUNID)
     shutil.rmtree(out, ignore_errors=True)
     os.makedirs(out)
     env = san_env(asan_dir)
@@ -227,11 +227,13 @@ def san_corpus(ctx, asan_dir, attempt=1):
     if kernels and missing and not ctx.failures:
         ctx.disagree('sanitizer corpus reaches every exported kernel', dict(missing=missing), 'all kernels', 'missing')
     ctx.corr_relations.append('all exported kernels executed under ASan+UBSan+LSan with caller-sized buffers: no report')
+    if not ctx.failures:
+        shutil.rmtree(out, ignore_errors=True)
 
 
 def run_one_under_asan(asan_dir, rec, tag, timeout=120):
     """run a single kernel call (dict kernel,args,case) in a sanitizer subprocess -> (report or None, stderr)"""
-    d = os.path.join(core.VERIF, 'build', 'run', 'c17_single' + core.TAG)
+    d = os.path.join(core.VERIF, 'build', 'run', 'c17_single' + core.TAG + '_' + core.RUNID)
     os.makedirs(d, exist_ok=True)
     path = os.path.join(d, tag + '.pkl')
     with open(path, 'wb') as f:
@@ -476,6 +478,7 @@ def run(ctx):
     twin_malformed(ctx, asan_dir)
     twin_bfs(ctx, asan_dir)
     san_corpus(ctx, asan_dir)
+    shutil.rmtree(os.path.join(core.VERIF, 'build', 'run', 'c17_single' + core.TAG + '_' + core.RUNID), ignore_errors=True)
 
 
 def search(ctx):
